@@ -49,6 +49,16 @@ template<typename F, typename... Args>
 struct inv : is_invocable_impl<F, Args...>::type
 {
 };
+// byte type of the view a cursor-based accessor returns: const whenever the enclosing view or the cursor is const
+template<typename F, typename V, typename C, bool = inv<F, V, C>::value>
+struct child_is_const : std::true_type   // the call is ill-formed: nothing is returned
+{
+};
+template<typename F, typename V, typename C>
+struct child_is_const<F, V, C, true>
+    : std::is_const<typename std::remove_pointer<decltype(std::declval<F>()(std::declval<V>(), std::declval<C>()))>::type>
+{
+};
 template<typename V>
 using tag_of = typename ::sbepp::traits_tag<V>::type;
 template<typename B>
@@ -84,6 +94,7 @@ class Cls:
         self.scalars = []        # accessor names with value setters
         self.level = kind in ('message', 'entry')
         self.flat = None
+        self.child_views = []    # members of a level that return views: array/composite fields, groups, data
 
 
 def _tree(leaves, depth):
@@ -115,12 +126,16 @@ def inventory(pkg, layout):
                     a = Cls(new('A'), 'sarray', None, '%s.%s()' % (parent.expr, name), msg, where + '.' + name)
                     a.definition = 'template<class B> using %s = decltype(std::declval<%s<B>>().%s());' % (a.id, parent.id, name)
                     classes.append(a)
+                    if depth == 0:
+                        parent.child_views.append(name)
                 else:
                     parent.scalars.append(name)
             else:
                 c = Cls(new('C'), 'composite', None, '%s.%s()' % (parent.expr, name), msg, where + '.' + name)
                 c.definition = 'template<class B> using %s = decltype(std::declval<%s<B>>().%s());' % (c.id, parent.id, name)
                 classes.append(c)
+                if depth == 0:
+                    parent.child_views.append(name)
                 members(c, lfs, depth + 1, msg, where + '.' + name)
 
     def level(lv, parent, msg, where):
@@ -130,6 +145,7 @@ def inventory(pkg, layout):
             gc.definition = 'template<class B> using %s = decltype(std::declval<%s<B>>().%s());' % (gc.id, parent.id, g['name'])
             gc.flat = not g['level']['groups'] and not g['level']['datas']
             classes.append(gc)
+            parent.child_views.append(g['name'])
             hc = Cls(new('H'), 'header', None, 'sbepp::get_header(%s)' % gc.expr, msg, where + '.' + g['name'] + '#dimension')
             hc.definition = 'template<class B> using %s = decltype(sbepp::get_header(std::declval<%s<B>>()));' % (hc.id, gc.id)
             classes.append(hc)
@@ -142,6 +158,7 @@ def inventory(pkg, layout):
             dc = Cls(new('D'), 'data', None, '%s.%s()' % (parent.expr, d['name']), msg, where + '.' + d['name'])
             dc.definition = 'template<class B> using %s = decltype(std::declval<%s<B>>().%s());' % (dc.id, parent.id, d['name'])
             classes.append(dc)
+            parent.child_views.append(d['name'])
 
     for m in layout['messages']:
         if 'error' in m:
@@ -278,6 +295,32 @@ def static_tu(pkg, layout, model_enabled=None, conv_table=None):
                                            'view<%s>+cursor<%s>' % (vb, cb)))
                     add('set_by_tag_cursor', c, f, 'sbepp::set_by_tag<%s>(v, %s, std::forward<C>(c))' % (tag, val),
                         ['V', 'C'], combos)
+        if c.level:
+            # every member that returns a view, reached through every cursor wrapper: the byte type of the returned
+            # view is const whenever the enclosing view or the cursor is ("... also when reached through a more-const
+            # cursor on a mutable view"); the all-mutable combination must be callable and give a mutable view
+            for nm in c.child_views:
+                for wname, walias in CURSORS:
+                    pid[0] += 1
+                    i = pid[0]
+                    lines = ['struct P%d { template<typename V, typename C> auto operator()(V v, C&& c) -> '
+                             'decltype(sbepp::addressof(v.%s(std::forward<C>(c)))); };' % (i, nm)]
+                    exp = []
+                    for vb in ('char', 'const char'):
+                        for cb in ('char', 'const char'):
+                            args = '%s<%s>, %s<%s>' % (c.id, vb, walias, cb)
+                            label = 'child %s view<%s>+%s<%s>' % (nm, vb, wname, cb)
+                            if vb == 'char' and cb == 'char':
+                                lines.append('static_assert(c11::inv<P%d, %s>::value && !c11::child_is_const<P%d, %s>::value, '
+                                             '"C11 %d POS %s");' % (i, args, i, args, i, label))
+                                exp.append(([args], True))
+                            else:
+                                lines.append('static_assert(c11::child_is_const<P%d, %s>::value, "C11 %d NEG %s");' % (
+                                    i, args, i, label))
+                                exp.append(([args], False))
+                    pr = Probe(i, 'child_view_constness', c, '%s(%s)' % (nm, wname), '\n'.join(lines), exp)
+                    probes[i] = pr
+                    src.append(pr.text)
         if c.kind == 'message':
             add('fill_message_header', c, 'fill_message_header', 'sbepp::fill_message_header(v)', ['V'], vc(c))
         if c.kind == 'group':
